@@ -8,7 +8,7 @@ import NmVerif.Lemmas.Resize
 import NmVerif.Index.Expand
 import NmVerif.Lemmas.Diagonal
 import NmVerif.Index.SlidingWindow
-import NmVerif.Index.Split
+import NmVerif.Lemmas.Split
 import NmVerif.Index.Stack
 /-
   C04 — selecting / replicating / joining / generating views equal their reference result.
@@ -870,8 +870,8 @@ example : (slidingWindowView [2, 4] [2] (some [-1]) true).map (fun v => (v.dst, 
     some ([2, 3, 2], some [1, 3]) := by decide
 
 /-! ### split into `N` equal sections along axis `k` (NumPy `np.split(a, N, axis=k)`, `N ∣ extent`): `N` parts of
-    extent `n / N`, part `i` reads `a[…, x + i·(n/N), …]`.  Index-list splits are under correspondence only (PARTIAL);
-    cut points beyond the extent are a known finding (split.index-beyond-extent). -/
+    extent `n / N`, part `i` reads `a[…, x + i·(n/N), …]`.  Cut-point lists: `splitIdx_*` below (cut points beyond the
+    extent were a defect of the original code, "split.index-beyond-extent", repaired in /repo). -/
 
 theorem split_parts (s : Shape) (N k n : Nat) (hn : s[k]? = some n) :
     ∃ ps, splitViews s (some N) [] (k : Int) = some ps ∧ ps.length = N := by
@@ -939,6 +939,102 @@ theorem split_inBounds (s : Shape) (N k n : Nat) (hn : s[k]? = some n) (hdiv : N
 
 example : (splitViews [2, 6] (some 3) [] 1).map (fun ps => ps.map (fun v => (v.dst, v.map [1, 1]))) =
     some [([2, 2], some [1, 1]), ([2, 2], some [1, 3]), ([2, 2], some [1, 5])] := by decide
+
+/-! ### split at a LIST of cut points (NumPy `np.split(a, [i1, i2, …], axis)`): `len + 1` parts, part `i` = `a[lo:hi]` on
+    the axis with `lo = ([0] + cuts)[i]`, `hi = (cuts + [n])[i]`; every accepted axis incl. negative; cut points beyond
+    the extent are clamped (empty trailing parts), repeated cut points give empty parts.  Domain: cut points `≥ 0`
+    (a negative cut point means "from the end" in NumPy and wraps to a huge `size_t` in the C++: outside the domain);
+    the partition statement additionally needs them sorted (NumPy's documented domain). -/
+
+/-- a cut list of length `m` gives `m + 1` parts, whatever the cut points (the C++ never refuses) -/
+theorem splitIdx_parts (s : Shape) (cuts : List Int) (axis : Int) (k : Nat)
+    (hk : normalizeAxis1 axis s.length = some k) :
+    ∃ ps, splitViews s none cuts axis = some ps ∧ ps.length = cuts.length + 1 := by
+  have hkn := (normalizeAxis1_some axis _ k hk).1
+  have hn : s[k]? = some s[k] := by simp [hkn]
+  exact ⟨_, splitViews_indices_eq s cuts axis k _ hk hn, by simp [splitBoundsIndices_length]⟩
+
+/-- part `i` is NumPy's `a[…, lo:hi, …]` with `lo = ([0] + cuts)[i]`, `hi = (cuts + [n])[i]` (Python slice semantics for
+    non-negative bounds: both clamped to the extent `n`, length `max(0, stop - start)`), element `x ↦ x + start` -/
+theorem splitIdx_elem (s : Shape) (cuts : List Int) (axis : Int) (k n : Nat)
+    (hk : normalizeAxis1 axis s.length = some k) (hn : s[k]? = some n) (hnn : ∀ c ∈ cuts, 0 ≤ c)
+    (ps : List IxView) (hps : splitViews s none cuts axis = some ps) (i : Nat) (v : IxView) (hv : ps[i]? = some v)
+    (lo hi : Nat) (hlo : (0 :: cuts.map Int.toNat)[i]? = some lo) (hhi : (cuts.map Int.toNat ++ [n])[i]? = some hi) :
+    v.src = s ∧ v.dst = replaceExtent s k (min hi n - min lo n) ∧
+      ∀ d x, d[k]? = some x → v.map d = some (d.set k (x + min lo n)) := by
+  have hkn := (normalizeAxis1_some axis _ k hk).1
+  rw [splitViews_indices_eq s cuts axis k n hk hn] at hps
+  simp only [Option.some.injEq] at hps
+  subst hps
+  rw [List.getElem?_map, splitBoundsIndices_getElem? n cuts hnn i lo hi hlo hhi] at hv
+  simp only [Option.map_some, Option.some.injEq] at hv
+  subst hv
+  refine ⟨rfl, ?_, ?_⟩
+  · rw [replaceExtent_eq_set s k _ hkn]
+    simp only [splitPart]
+    congr 2
+    omega
+  · intro d x hx
+    simp [splitPart, hx]
+
+/-- no part reads outside the source, whatever the (non-negative) cut points: beyond the extent ⇒ empty part -/
+theorem splitIdx_inBounds (s : Shape) (cuts : List Int) (axis : Int) (k : Nat)
+    (hk : normalizeAxis1 axis s.length = some k) (hnn : ∀ c ∈ cuts, 0 ≤ c)
+    (ps : List IxView) (hps : splitViews s none cuts axis = some ps) (i : Nat) (v : IxView) (hv : ps[i]? = some v) :
+    v.InBounds := by
+  have hkn := (normalizeAxis1_some axis _ k hk).1
+  have hn : s[k]? = some s[k] := by simp [hkn]
+  obtain ⟨ps', hps', hlen⟩ := splitIdx_parts s cuts axis k hk
+  rw [hps] at hps'; simp only [Option.some.injEq] at hps'; subst hps'
+  have hi : i < cuts.length + 1 := by
+    rw [← hlen]
+    exact (List.getElem?_eq_some_iff.1 hv).1
+  have h1 : i < (0 :: cuts.map Int.toNat).length := by simpa using hi
+  have h2 : i < (cuts.map Int.toNat ++ [s[k]]).length := by simpa using hi
+  obtain ⟨hsrc, hdst, hm⟩ := splitIdx_elem s cuts axis k _ hk hn hnn ps hps i v hv _ _
+    (List.getElem?_eq_getElem h1) (List.getElem?_eq_getElem h2)
+  intro d hd r hr
+  rw [hdst] at hd
+  rw [hsrc]
+  obtain ⟨x, hx, hxm, hd'⟩ := coord_of_inShape hkn hd
+  rw [hm d x hx] at hr
+  simp only [Option.some.injEq] at hr
+  subst hr
+  exact inShape_set_of_set hd' hkn (by omega)
+
+/-- sorted non-negative cut points: the parts PARTITION the axis — reading every part along the axis, one part after the
+    other, visits every source position `0 … n-1` exactly once and in order (all other coordinates unchanged, `d`) -/
+theorem splitIdx_partition (s : Shape) (cuts : List Int) (axis : Int) (k n : Nat)
+    (hk : normalizeAxis1 axis s.length = some k) (hn : s[k]? = some n) (hnn : ∀ c ∈ cuts, 0 ≤ c)
+    (hsorted : cuts.Pairwise (· ≤ ·))
+    (ps : List IxView) (hps : splitViews s none cuts axis = some ps) (d : Idx) (hd : d.length = s.length) :
+    ps.flatMap (fun v => axisReads v k d) = (List.range n).map some := by
+  have hkn := (normalizeAxis1_some axis _ k hk).1
+  rw [splitViews_indices_eq s cuts axis k n hk hn] at hps
+  simp only [Option.some.injEq] at hps
+  subst hps
+  rw [List.flatMap_map]
+  simp only [axisReads_splitPart s k n _ d hkn hd]
+  simp only [splitBoundsIndices, splitCuts_nonneg n cuts hnn]
+  rw [flatMap_zip_ranges n _ 0 (Nat.zero_le _)]
+  · simp [List.range_eq_range']
+  · rw [List.pairwise_map, List.pairwise_map]
+    refine hsorted.imp_of_mem ?_
+    intro a b ha hb hab
+    have := hnn a ha
+    have := hnn b hb
+    omega
+  · intro c hc
+    simp only [List.mem_map] at hc
+    obtain ⟨c', _, rfl⟩ := hc
+    omega
+
+example : normalizeAxis1 (-1) 2 = some 1 ∧ (∀ c ∈ [1, 1, 7], (0 : Int) ≤ c) ∧ ([1, 1, 7] : List Int).Pairwise (· ≤ ·) := by decide
+/-- cut points `[1, 1, 7]` on an axis of extent 4 (negative axis): parts `[0,1) [1,1) [1,4) [4,4)` -/
+example : (splitViews [2, 4] none [1, 1, 7] (-1)).map (fun ps => ps.map (fun v => (v.dst, v.map [1, 0]))) =
+    some [([2, 1], some [1, 0]), ([2, 0], some [1, 1]), ([2, 3], some [1, 1]), ([2, 0], some [1, 4])] := by decide
+example : (splitViews [2, 4] none [1, 1, 7] (-1)).map (fun ps => ps.flatMap (fun v => axisReads v 1 [1, 0])) =
+    some [some 0, some 1, some 2, some 3] := by decide
 
 /-! ### stack / hstack / vstack / dstack / column_stack = concatenate of the two operands reshaped to a promoted shape
     (`joinReshaped a b a' b' axis`).  Reshaping keeps the flat (C-order) position, so the element theorems of
